@@ -112,7 +112,7 @@ var c06Edits = []Edit{
 	{Pkg: "top", Kind: "newfile", N: 5},
 	{Pkg: ".", Kind: "body", N: 6},
 	{Pkg: "leaf", Kind: "blank", N: 7},
-	{Pkg: "conf", Kind: "blank", N: 8}, // call-free package: its obfuscated build does not change, its plain one does
+	{Pkg: "conf", Kind: "freecomment", N: 8}, // call-free package: its obfuscated build does not change, its plain one does
 }
 
 func (c c06) Generate(e *Env) ([]*Case, error) {
